@@ -24,6 +24,7 @@ type progGen struct {
 	arity   map[string]int // functions defined again with another number of parameters (default 2)
 	fvals   []string // variables holding a function value taken from one of funcs
 	captured map[string]bool // functions whose value was taken (they keep two parameters)
+	pending []string // statements that must follow the one just returned
 	long    bool     // many block scopes in one program (local slot numbers grow large)
 	structs bool
 	insts   []string
@@ -243,12 +244,47 @@ func (g *progGen) scopedStmt() string {
 
 // stmt returns one top-level statement (one line).
 func (g *progGen) stmt() string {
+	if len(g.pending) > 0 {
+		st := g.pending[0]
+		g.pending = g.pending[1:]
+		return st
+	}
 	for {
-		k := g.r.Intn(42)
+		k := g.r.Intn(46)
 		if g.long && g.obs && g.r.Bool() {
 			k = 22
 		}
 		switch k {
+		case 42:
+			// a function whose body names a package that is imported only by the NEXT statement
+			// (in both strategies the package is unknown where the function is compiled)
+			var cands []string
+			for _, pk := range []string{"strconv", "strings", "math"} {
+				if !g.imports[pk] {
+					cands = append(cands, pk)
+				}
+			}
+			if len(cands) == 0 || !g.obs {
+				continue
+			}
+			pk := core.Pick(g.r, cands)
+			g.imports[pk] = true
+			f := g.id("early")
+			use := map[string]string{"strconv": "strconv.Itoa(7)", "strings": "strings.ToUpper(\"a\")", "math": "math.Floor(2.5)"}[pk]
+			g.pending = append(g.pending, fmt.Sprintf("import %q", pk), fmt.Sprintf("host.Obs(%q, %s())", g.id("e"), f))
+			return fmt.Sprintf("func %s() any { return %s }", f, use)
+		case 43, 44:
+			// float arithmetic at the top level (operands and results are floats on the value stack)
+			if !g.obs {
+				continue
+			}
+			v := g.id("fl")
+			return fmt.Sprintf("%s := %s * %s; host.Obs(%q, %s)", v, core.Pick(g.r, []string{"1.5", "0.25", "3.0"}), core.Pick(g.r, []string{"3.0", "2.5", "0.5"}), g.id("fo"), v)
+		case 45:
+			// a function whose locals are initialised from constants and divided
+			f := g.id("f")
+			g.funcs = append(g.funcs, f)
+			return fmt.Sprintf("func %s(p int, q int) int { s := %d; t := s / 2; u := t; return (p + q + t*3 + u) %% 1000 }", f, 5+2*g.r.Intn(20))
 		case 40, 41:
 			// a variable of a struct type (or pointer to it) declared without initialiser and read at once
 			if !g.structs || !g.obs {
